@@ -435,8 +435,14 @@ func runRestart(outage int) *ev.Failure {
 		if len(got) != n {
 			return ev.Failf("udp collector restarted: SendSet reported %d bytes, the datagram has %d", n, len(got))
 		}
-		if _, sets, err := ref.ParseMessage(got); err != nil || len(sets) != 1 {
+		h, sets, err := ref.ParseMessage(got)
+		if err != nil || len(sets) != 1 {
 			return ev.Failf("udp collector restarted: the datagram is not a well-formed message: %v", err)
+		}
+		// every data call so far carried one record, and a call counts its records at most once,
+		// whether it was told of an error or not
+		if calls := outage + (k - 99); int(h.Seq) > calls {
+			return ev.Failf("udp collector back after an outage of %d sends: the message of send %d after the restart carries sequence number %d; only %d data calls of one record each were made on this exporter so far (a call counted its records twice)", outage, k-99, h.Seq, calls)
 		}
 	}
 	if okSends == 0 {
